@@ -47,6 +47,9 @@ pub struct PairCfg {
     /// manual responses (v5.0): the receiving application refuses every message (PUBACK / PUBREC with this failure
     /// reason code): the exchange ends there, identifiers and Receive Maximum slots come back all the same
     pub refuse_code: Option<u8>,
+    /// v5.0: every publish carries a User Property with a value of this many bytes (0 = none): with 120 the
+    /// property block of an alias-registering PUBLISH is 129 bytes and that of its stored copy 126
+    pub pub_pad: usize,
 }
 
 #[derive(Clone, Copy, Debug, PartialEq, Eq, Hash)]
@@ -407,6 +410,9 @@ impl<P: Pid> Pair<P> {
                         vec![]
                     }
                 };
+                if self.cfg.pub_pad > 0 && ver == Ver::V5 {
+                    props.push(Prop { id: 0x26, val: PVal::Pair(b"k".to_vec(), vec![b'v'; self.cfg.pub_pad]) });
+                }
                 let mut payload = vec![tag, b'!'];
                 if matches!(al, Al::Use(_)) {
                     payload.extend(std::iter::repeat(b'!').take(self.cfg.use_extra as usize));
@@ -691,6 +697,7 @@ pub fn configs(thorough: bool) -> Vec<PairCfg> {
         topic_off: 0,
         use_extra: 0,
         refuse_code: None,
+        pub_pad: 0,
     };
     for ver in [Ver::V4, Ver::V5] {
         v.push(base(ver, "auto/auto"));
@@ -718,6 +725,15 @@ pub fn configs(thorough: bool) -> Vec<PairCfg> {
     }
     // Maximum Packet Size = exactly the largest workload packet (PUBLISH QoS>0, topic 'bb', 2-byte payload: 1+1+4+2+1+2)
     v.push(PairCfg { mps: Some(11), ..base(Ver::V5, "mps=11 (largest workload packet)") });
+    // property blocks around the one-byte / two-byte Property Length boundary: the copy kept for retransmission
+    // (alias property removed) and the packet auto-map rewrites (alias property added) cross it - what goes out
+    // after a loss must still be a frame the other side reads as the same message
+    for (mode, pad) in [(0u8, 120usize), (1, 120)] {
+        if !thorough && mode == 1 {
+            continue;
+        }
+        v.push(PairCfg { tam: 1, alias_mode: mode, losses: 1, pub_pad: pad, partials: 0, ..base(Ver::V5, &format!("tam=1 alias-mode={mode} padded properties ({pad})")) });
+    }
     // a receiving application that refuses every message (failure PUBACK / PUBREC), Receive Maximum 1 both ways:
     // the refused exchange is over - after a loss and resume, too, nothing of it may still count
     v.push(PairCfg { auto_c: false, auto_s: false, rm_c: Some(1), rm_s: Some(1), refuse_code: Some(0x87), losses: 1, ..base(Ver::V5, "manual/manual, receiver refuses (0x87), rm=1/1") });
